@@ -63,8 +63,10 @@ func VerifC17Routing() {
 	}
 	baseCfg := &tls.Config{NextProtos: []string{"app"}, Certificates: []tls.Certificate{{Certificate: [][]byte{vfs.MkCert(appTmpl, appTmpl, 6, 6)}, PrivateKey: appKey}}}
 
-	name := vf.String("offered-name", 12) // the one arbitrary protocol name the client adds to its list
+	name := vf.String("offered-name", 12) // an arbitrary protocol name the client adds to its list
 	vf.Assume(vf.And(len(name) >= 1, vf.Not(strings.HasPrefix(name, "v1-nodee-"))))
+	// a node may offer a second, unregistered application protocol ahead of it
+	lead := vf.Bool("node-offers-an-unregistered-protocol-first")
 	node := vf.Bool("client-is-an-authenticated-node")
 	var peer *vfs.Peer
 	if node {
@@ -73,6 +75,9 @@ func VerifC17Routing() {
 		protos, _ := nodetls.BreakIntoNextProtos(nodeenrollment.AuthenticateNodeNextProtoV1Prefix, base64.RawStdEncoding.EncodeToString(reqBytes))
 		prefId, _ := nodeenrollment.KeyIdFromPkix(vf.Pkix(0))
 		pref := nodeenrollment.CertificatePreferenceV1Prefix + prefId
+		if lead {
+			protos = append(protos, "some-other-app-protocol")
+		}
 		if vf.Bool("preference-entry-before-the-extra-name") {
 			protos = append(protos, pref, name)
 		} else {
@@ -86,8 +91,12 @@ func VerifC17Routing() {
 		peer.Conn = vf.AdversaryConn(peer.Protos, nil, 0, false)
 	}
 	baseClosed := make(chan struct{})
+	script := &vfs.Script{Conns: []net.Conn{peer}, Errs: []error{nil}, Hold: baseClosed}
+	if vf.Bool("closed-base-listener-reports-another-error") { // not every listener reports closure as net.ErrClosed
+		script.Final = errors.New("listener shut down")
+	}
 	il, err := protocol.NewInterceptingListener(&protocol.InterceptingListenerConfiguration{Context: ctx, Storage: st,
-		BaseListener: vfAddrListener{&vfs.Script{Conns: []net.Conn{peer}, Errs: []error{nil}, Hold: baseClosed}}, BaseTlsConfiguration: baseCfg})
+		BaseListener: vfAddrListener{script}, BaseTlsConfiguration: baseCfg})
 	vf.Assert("listener-built", err == nil)
 	sl, err := NewSplitListener(il)
 	vf.Assert("split-built", err == nil)
